@@ -112,7 +112,7 @@ func runOctree(enc *json.Encoder, c Case) error {
 
 	// closest element / closest point
 	if len(c.QPts) > 0 {
-		line := batchLine{K: "closest", Case: c.Id, Fail: []int{}, Nan: []int{}}
+		line := batchLine{K: "closest", Case: c.Id, Fail: []int{}, Nan: []int{}, Nana: []int{}}
 		batch := make([]closestEntry, 0, len(c.QPts))
 		for qi, q := range c.QPts {
 			qv := v3(q)
@@ -123,12 +123,13 @@ func runOctree(enc *json.Encoder, c Case) error {
 				e.D2[i] = fx(p.DistanceSquared(qv), &bad)
 				e.Cp[i] = []int{fx(p.X(), &bad), fx(p.Y(), &bad), fx(p.Z(), &bad)}
 			}
+			badAns := false
 			st := guard(func() {
 				ri, rp := b.tree.ClosestPoint(qv)
 				e.Ri = ri + 1
-				e.Rp = []int{fx(rp.X(), &bad), fx(rp.Y(), &bad), fx(rp.Z(), &bad)}
+				e.Rp = []int{fx(rp.X(), &badAns), fx(rp.Y(), &badAns), fx(rp.Z(), &badAns)}
 			})
-			line.note(qi, st, bad)
+			line.note(qi, st, bad, badAns)
 			batch = append(batch, e)
 		}
 		line.B = batch
@@ -136,7 +137,7 @@ func runOctree(enc *json.Encoder, c Case) error {
 			return err
 		}
 		// elements whose bounds contain the point
-		line = batchLine{K: "contain", Case: c.Id, Fail: []int{}, Nan: []int{}}
+		line = batchLine{K: "contain", Case: c.Id, Fail: []int{}, Nan: []int{}, Nana: []int{}}
 		cb := make([]setEntry, 0, len(c.QPts))
 		for qi, q := range c.QPts {
 			qv := v3(q)
@@ -147,7 +148,7 @@ func runOctree(enc *json.Encoder, c Case) error {
 				}
 			}
 			st := guard(func() { e.Res = ids1(b.tree.ElementsContainingPoint(qv)) })
-			line.note(qi, st, false)
+			line.note(qi, st, false, false)
 			cb = append(cb, e)
 		}
 		line.B = cb
@@ -158,7 +159,7 @@ func runOctree(enc *json.Encoder, c Case) error {
 
 	// elements whose bounds are within a radius
 	if len(c.Ranges) > 0 {
-		line := batchLine{K: "range", Case: c.Id, Fail: []int{}, Nan: []int{}}
+		line := batchLine{K: "range", Case: c.Id, Fail: []int{}, Nan: []int{}, Nana: []int{}}
 		rb := make([]setEntry, 0, len(c.Ranges))
 		for qi, q := range c.Ranges {
 			qv := v3(q[0:3])
@@ -170,7 +171,7 @@ func runOctree(enc *json.Encoder, c Case) error {
 				}
 			}
 			st := guard(func() { e.Res = ids1(b.tree.ElementsWithinRange(qv, r)) })
-			line.note(qi, st, false)
+			line.note(qi, st, false, false)
 			rb = append(rb, e)
 		}
 		line.B = rb
@@ -181,7 +182,7 @@ func runOctree(enc *json.Encoder, c Case) error {
 
 	// elements whose bounds a ray crosses: list query and passive traversal
 	if len(c.Rays) > 0 {
-		line := batchLine{K: "ray", Case: c.Id, Fail: []int{}, Nan: []int{}}
+		line := batchLine{K: "ray", Case: c.Id, Fail: []int{}, Nan: []int{}, Nana: []int{}}
 		yb := make([]rayEntry, 0, len(c.Rays))
 		for qi, q := range c.Rays {
 			ray, t0, t1 := rayOf(q)
@@ -198,7 +199,7 @@ func runOctree(enc *json.Encoder, c Case) error {
 					e.Trav = append(e.Trav, i+1)
 				})
 			})
-			line.note(qi, st, false)
+			line.note(qi, st, false, false)
 			yb = append(yb, e)
 		}
 		line.B = yb
@@ -211,7 +212,7 @@ func runOctree(enc *json.Encoder, c Case) error {
 	// is caller code, as in rendering.Mesh.Hit; the element-level primitive is
 	// modeling.Tri.RayIntersects restricted to [min,max].
 	if len(c.Rays) > 0 && c.Kind == "tri" {
-		line := batchLine{K: "near", Case: c.Id, Fail: []int{}, Nan: []int{}}
+		line := batchLine{K: "near", Case: c.Id, Fail: []int{}, Nan: []int{}, Nana: []int{}}
 		nb := make([]nearEntry, 0, len(c.Rays))
 		for qi, q := range c.Rays {
 			ray, t0, t1 := rayOf(q)
@@ -226,7 +227,7 @@ func runOctree(enc *json.Encoder, c Case) error {
 				}
 				return t, true
 			}
-			bad := false
+			bad, badAns := false, false
 			e := nearEntry{Te: make([]int, n), Hitb: []int{}, Vis: []int{}}
 			for i := range b.elems {
 				e.Te[i] = None
@@ -255,10 +256,10 @@ func runOctree(enc *json.Encoder, c Case) error {
 				})
 				e.Ri = best + 1
 				if best >= 0 {
-					e.Rt = fx(bestT, &bad)
+					e.Rt = fx(bestT, &badAns)
 				}
 			})
-			line.note(qi, st, bad)
+			line.note(qi, st, bad, badAns)
 			nb = append(nb, e)
 		}
 		line.B = nb
@@ -269,11 +270,14 @@ func runOctree(enc *json.Encoder, c Case) error {
 	return nil
 }
 
-func (l *batchLine) note(qi int, st string, bad bool) {
+func (l *batchLine) note(qi int, st string, bad, badAns bool) {
 	if st != "OK" {
 		l.Fail = append(l.Fail, qi+1)
 	}
 	if bad {
 		l.Nan = append(l.Nan, qi+1)
+	}
+	if badAns {
+		l.Nana = append(l.Nana, qi+1)
 	}
 }
